@@ -222,6 +222,10 @@ func checkCase(c Case) error {
 			return fmt.Errorf("Verify succeeds against another certificate (%s) for %s", name, c.Source)
 		}
 	}
+	// the parsed object still verifies against its signer after it has been asked about other certificates
+	if ok, err := p.Verify(cert); !ok || err != nil {
+		return fmt.Errorf("Verify against the signer's certificate fails when the same parsed object is asked again (%s, attached=%v): %v, %v", c.Source, attached, ok, err)
+	}
 	// the caller's bytes are still the same signature: parse and verify them once more
 	if p2, err := pkcs7.ParsePKCS7(c.Sig); err != nil {
 		return fmt.Errorf("the signature bytes no longer parse after they have been verified once (%s): %v", c.Source, err)
